@@ -467,3 +467,35 @@ PROPS["C09"].jobs += [fuzz_job("fuzz-tsm-d3", fuzz_bin("tsm", 3), 5000, 60000, t
 PROPS["C10"].jobs += [fuzz_job("fuzz-per-d2", fuzz_bin("per", 2), 4000, 50000, qprocs=3), fuzz_job("fuzz-per-d3-tsm", fuzz_bin("per", 3, 1), 4000, 40000, thorough_only=True)]
 PROPS["C15"].jobs += [fuzz_job("fuzz-tree-d3", fuzz_bin("tree", 3), 4000, 60000, qprocs=3), fuzz_job("fuzz-tsm-d3", fuzz_bin("tsm", 3), 4000, 60000, thorough_only=True),
                       fuzz_job("fuzz-per-d2", fuzz_bin("per", 2), 4000, 50000, thorough_only=True)]
+
+
+# ---- bounded-exhaustive occupancy patterns of small trees (C01, C07): every non-empty subset of the leaves x block sizes {1,2,3,5,n} x both modes
+def exhaustive_jobs(quick):
+    jobs = []
+    # (dimension, height, processes): 2^16-1 patterns for Dim 1 H 5 and Dim 2 H 3, 255 for Dim 3 H 2 and Dim 1 H 4
+    for dim, h, parts in ((1, 5, 6), (2, 3, 6), (3, 2, 1), (1, 4, 1)):
+        if quick and (dim, h) in ((1, 5), (2, 3)):
+            # quick tier: a 1/4 slice of the large enumerations (every 4th pattern), thorough: all
+            for k in range(parts):
+                jobs.append(Job("exh-d%d-h%d-%d" % (dim, h, k), single(dim), quick=(1, 1, 1), thorough=(1, 1, 1),
+                                args=["--mode", "exhaustive", "--exh", str(h), "--part", str(k), "--parts", str(parts)]))
+        else:
+            for k in range(parts):
+                jobs.append(Job("exh-d%d-h%d-%d" % (dim, h, k), single(dim), quick=(1, 1, 1), thorough=(1, 1, 1),
+                                args=["--mode", "exhaustive", "--exh", str(h), "--part", str(k), "--parts", str(parts)]))
+    return jobs
+
+
+PROPS["C01"].jobs += exhaustive_jobs(True)
+PROPS["C07"].jobs += exhaustive_jobs(True)
+
+
+# ---- C02 also quantifies over the other executors and orderings: run their binaries with --prop C02 (argument checks asserted) -------------
+PROPS["C02"].jobs += [
+    Job("tsm-seq-d3", tsm(0, 3), quick=(2, 600, 100), thorough=(16, 4000, 100)),
+    Job("per-seq-d3", periodic(0, 0, 3), quick=(2, 500, 100), thorough=(16, 3000, 100)),
+    Job("per-seq-d2", periodic(0, 0, 2), quick=(1, 500, 100), thorough=(16, 3000, 100)),
+    Job("ptsm-d3", periodic(0, 1, 3), quick=(2, 500, 100), thorough=(16, 3000, 100)),
+    Job("omp-d3", sched(1, 3), quick=(2, 500, 100), thorough=(16, 3000, 100)),
+    Job("omp-tsm-d3", tsm(1, 3), quick=(1, 500, 100), thorough=(16, 3000, 100)),
+]
